@@ -1,8 +1,297 @@
+import CV.Model.Range
+import CV.Model.TableModel
+import CV.Spec.RangeSpec
 import CV.Driver.Util
-/-! Line protocol for component `range` (stub; owned by the component's author) -/
-namespace CV.Driver.Range
-open CV CV.Driver
+/-!
+Line protocol for the range coder.
 
-def handle (_segs : List (List String)) : String := "bad-op"
+* `range W S | <init> | op | op …` — encoder histories; `init` is `new`, `with <words>`
+  (`with_backend` on a non-empty `Vec`) or `raw <bulk> <lower> <range> <n> <first>`
+  (`from_raw_parts`; `n = 0` is the normal situation).  After `intodec` the history continues
+  with decoder ops on the decoder returned by `into_decoder()`.
+* `rangedec W S | <init> | op | op …` — decoder histories; `init` is `words <words>`
+  (`from_compressed`) or `rawdec <words> <pos> <lower> <range> <point>` (`from_raw_parts`).
+* `rangesweep W S B P <lowers> <ranges> <firsts>` — every encoder single step over a lattice.
+* `rangedecsweep W S B P <lowers> <ranges> <points> <cdf>` — every decoder single step.
+-/
+namespace CV.Driver.Range
+open CV CV.Driver CV.Range
+
+inductive Mode where
+  | enc (e : Encoder)
+  | dec (d : Decoder)
+
+structure St where
+  mode : Mode
+  /-- snapshots taken by `snap`, oldest first -/
+  snaps : List (Nat × Nat × Nat) := []
+  /-- `(prefix words, encoded (P, cum, p) newest first)`; `none` once the big-number
+      reference no longer applies (raw start, `clear`) -/
+  hist : Option (List Nat × List (Nat × Nat × Nat)) := none
+
+def cfgOf (W S B P : Nat) : Cfg := { W := W, S := S, P := P, B := B }
+
+def showSit : Situation → String
+  | .normal => "normal"
+  | .inverted n f => "inv " ++ toHex n ++ " " ++ toHex f
+
+def showEnc (e : Encoder) : String :=
+  showList e.bulk ++ " " ++ toHex e.lower ++ " " ++ toHex e.range ++ " " ++ showSit e.situation
+
+def showDec (d : Decoder) : String :=
+  toHex d.pos ++ " " ++ toHex d.lower ++ " " ++ toHex d.range ++ " " ++ toHex d.point
+
+def parseTriples : List String → Option (List (Nat × Nat × List Nat))
+  | [] => some []
+  | b :: p :: cdf :: rest => do
+      let b ← parseHex b
+      let p ← parseHex p
+      let t ← parseList cdf
+      let r ← parseTriples rest
+      some ((b, p, t) :: r)
+  | _ => none
+
+/-- decode one symbol per `(B, P, cdf)`; output `syms exhausted?` / `syms invalid_data` -/
+def decMany (W S : Nat) : Decoder → List (Nat × Nat × List Nat) → List Nat → (String × Bool)
+  | d, [], acc =>
+    match d.maybeExhausted (cfgOf W S 1 1) with
+    | .ok b => (showList acc.reverse ++ " " ++ showBool b, false)
+    | .error f => (faultStr f, true)
+  | d, (b, p, cdf) :: rest, acc =>
+    match decode (cfgOf W S b p) (tableModel cdf) d with
+    | .ok (s, d') => decMany W S d' rest (s :: acc)
+    | .error .invalidData => (showList acc.reverse ++ " invalid_data", false)
+    | .error (.fault f) => (faultStr f, true)
+
+def doInit (W S : Nat) (kind : String) (seg : List String) : Option (Option St) :=
+  let c := cfgOf W S 1 1
+  match kind, seg with
+  | "range", ["new"] => some (some { mode := .enc (Encoder.empty c), hist := some ([], []) })
+  | "range", ["with", ws] => do
+      let l ← parseList ws
+      some (some { mode := .enc (Encoder.withBackend c l), hist := some (l, []) })
+  | "range", ["raw", ws, lo, r, n, first] => do
+      let l ← parseList ws
+      let lo ← parseHex lo
+      let r ← parseHex r
+      let n ← parseHex n
+      let first ← parseHex first
+      match stateNew c lo r with
+      | .ok (some _) =>
+        let sit := if n = 0 then Situation.normal else .inverted n first
+        some (some { mode := .enc { bulk := l, lower := lo, range := r, situation := sit } })
+      | _ => some none
+  | "rangedec", ["words", ws] => do
+      let l ← parseList ws
+      match Decoder.fromCompressed c l with
+      | .ok d => some (some { mode := .dec d })
+      | .error _ => some none
+  | "rangedec", ["rawdec", ws, pos, lo, r, pt] => do
+      let l ← parseList ws
+      let pos ← parseHex pos
+      let lo ← parseHex lo
+      let r ← parseHex r
+      let pt ← parseHex pt
+      if pos > l.length then some none else
+      match stateNew c lo r with
+      | .ok (some _) =>
+        match Decoder.fromRawParts c l pos lo r pt with
+        | some d => some (some { mode := .dec d })
+        | none => some none
+      | _ => some none
+  | _, _ => none
+
+def mOut {α : Type} (st : St) (r : M α) (f : α → St × String) : St × String × Bool :=
+  match r with
+  | .ok a => let (s, o) := f a; (s, o, false)
+  | .error e => (st, faultStr e, true)
+
+def encOp (W S : Nat) (st : St) (e : Encoder) (seg : List String) : Option (St × String × Bool) :=
+  let c := cfgOf W S 1 1
+  match seg with
+  | ["enc", b, p, cum, pr] => do
+      let b ← parseHex b
+      let p ← parseHex p
+      let cum ← parseHex cum
+      let pr ← parseHex pr
+      match encodeCP (cfgOf W S b p) e cum pr with
+      | .ok e' =>
+        some ({ st with mode := .enc e',
+                        hist := st.hist.map (fun (pre, l) => (pre, (p, cum, pr) :: l)) },
+              "ok", false)
+      | .error .impossible => some (st, "impossible", false)
+      | .error (.fault f) => some (st, faultStr f, true)
+  | ["encnone", _, _] => some (st, "impossible", false)
+  | ["export"] => some (mOut st (intoCompressed c e) (fun ws => (st, showList ws)))
+  | ["getc"] =>
+      some (mOut st (getCompressed c e) (fun (view, e') =>
+        ({ st with mode := .enc e' }, showList view)))
+  | "decoder" :: rest => do
+      let ts ← parseTriples rest
+      match tempDecoder c e with
+      | .error f => some (st, faultStr f, true)
+      | .ok (d, e') =>
+        let (out, dead) := decMany W S d ts []
+        some ({ st with mode := .enc e' }, out, dead)
+  | ["nw"] => some (mOut st (numWords c e) (fun k => (st, toHex k)))
+  | ["nb"] => some (mOut st (numBits c e) (fun k => (st, toHex k)))
+  | ["empty"] => some (st, showBool (isEmpty c e), false)
+  | ["pos"] =>
+      let (n, lo, r) := e.pos
+      some (st, toHex n ++ " " ++ toHex lo ++ " " ++ toHex r, false)
+  | ["snap"] =>
+      let (n, lo, r) := e.pos
+      some ({ st with snaps := st.snaps ++ [(n, lo, r)] },
+            toHex n ++ " " ++ toHex lo ++ " " ++ toHex r, false)
+  | ["raw"] => some (st, showEnc e, false)
+  | ["clone"] => some (st, "ok", false)
+  | ["clear"] => some ({ st with mode := .enc (clear c e), hist := none }, "ok", false)
+  | ["intodec"] =>
+      some (mOut st (intoDecoder c e) (fun d => ({ st with mode := .dec d }, "ok")))
+  | ["spec"] =>
+      match st.hist with
+      | some (pre, l) => some (st, showList (pre ++ RangeSpec.words W S l.reverse), false)
+      | none => some (st, "n/a", false)
+  | _ => none
+
+def seekOut (st : St) (d : Decoder) (c : Cfg) (pos lo r : Nat) : St × String × Bool :=
+  match stateNew c lo r with
+  | .error f => (st, faultStr f, true)
+  | .ok none => (st, "badstate", false)
+  | .ok (some _) =>
+    match d.seek c pos lo r with
+    | .ok d' => ({ st with mode := .dec d' }, "ok", false)
+    | .error .rejected => (st, "err", false)
+    | .error (.fault f) => (st, faultStr f, true)
+
+def decOp (W S : Nat) (st : St) (d : Decoder) (seg : List String) : Option (St × String × Bool) :=
+  let c := cfgOf W S 1 1
+  match seg with
+  | ["dec", b, p, cdf] => do
+      let b ← parseHex b
+      let p ← parseHex p
+      let t ← parseList cdf
+      match decode (cfgOf W S b p) (tableModel t) d with
+      | .ok (s, d') => some ({ st with mode := .dec d' }, toHex s, false)
+      | .error .invalidData => some (st, "invalid_data", false)
+      | .error (.fault f) => some (st, faultStr f, true)
+  | ["seek", pos, lo, r] => do
+      some (seekOut st d c (← parseHex pos) (← parseHex lo) (← parseHex r))
+  | ["seekto", i] => do
+      let i ← parseHex i
+      let (pos, lo, r) ← st.snaps[i]?
+      some (seekOut st d c pos lo r)
+  | ["exhausted"] => some (mOut st (d.maybeExhausted c) (fun b => (st, showBool b)))
+  | ["raw"] => some (st, showDec d, false)
+  | ["clone"] => some (st, "ok", false)
+  | _ => none
+
+def doOp (W S : Nat) (st : St) (seg : List String) : Option (St × String × Bool) :=
+  match st.mode with
+  | .enc e => encOp W S st e seg
+  | .dec d => decOp W S st d seg
+
+def runOps (W S : Nat) : St → List (List String) → List String → List String
+  | _, [], acc => acc.reverse
+  | st, seg :: rest, acc =>
+    match doOp W S st seg with
+    | none => ("bad-op" :: acc).reverse
+    | some (st', out, dead) =>
+      if dead then (out :: acc).reverse else runOps W S st' rest (out :: acc)
+
+/-! ### single-step sweeps -/
+
+def digestList (h : UInt64) (l : List Nat) : UInt64 :=
+  l.foldl digestStep (digestStep h l.length)
+
+def digestEnc (h : UInt64) (r : Except EncErr Encoder) : UInt64 :=
+  match r with
+  | .ok e =>
+    let h := digestStep h 1
+    let h := digestList h e.bulk
+    let h := digestStep (digestStep h e.lower) e.range
+    match e.situation with
+    | .normal => digestStep h 0
+    | .inverted n f => digestStep (digestStep (digestStep h 1) n) f
+  | .error .impossible => digestStep h 2
+  | .error (.fault (.overflow _)) => digestStep h 3
+  | .error (.fault (.shift _)) => digestStep h 4
+  | .error (.fault _) => digestStep h 5
+
+/-- all `(cum, p)` with `1 ≤ p`, `cum + p ≤ 2^P` -/
+def allCP (P : Nat) : List (Nat × Nat) :=
+  (List.range (2^P)).flatMap (fun cum =>
+    (List.range (2^P - cum)).map (fun p1 => (cum, p1 + 1)))
+
+def sits (firsts : List Nat) : List Situation :=
+  .normal :: firsts.flatMap (fun f => [.inverted 1 f, .inverted 2 f, .inverted 3 f])
+
+def encSweep (W S B P : Nat) (lowers ranges firsts : List Nat) : Nat × UInt64 :=
+  let c := cfgOf W S B P
+  let cps := allCP P
+  lowers.foldl (fun acc lo =>
+    ranges.foldl (fun acc r =>
+      if r / 2^(S - W) = 0 ∨ r ≥ 2^S ∨ lo ≥ 2^S then (acc.1 + 1, digestStep acc.2 9) else
+      (sits firsts).foldl (fun acc sit =>
+        cps.foldl (fun (acc : Nat × UInt64) (cum, p) =>
+          let e : Encoder := { bulk := [], lower := lo, range := r, situation := sit }
+          let h := digestEnc acc.2 (encodeCP c e cum p)
+          let h := match sealWords c e with
+            | .ok ws => digestList h ws
+            | .error _ => digestStep h 7
+          (acc.1 + 1, h)) acc) acc) acc) (0, digestInit)
+
+def digestDec (h : UInt64) (r : Except DecErr (Nat × Decoder)) : UInt64 :=
+  match r with
+  | .ok (s, d) =>
+    let h := digestStep (digestStep h 1) s
+    digestStep (digestStep (digestStep (digestStep h d.pos) d.lower) d.range) d.point
+  | .error .invalidData => digestStep h 2
+  | .error (.fault (.overflow _)) => digestStep h 3
+  | .error (.fault (.shift _)) => digestStep h 4
+  | .error (.fault _) => digestStep h 5
+
+def decSweep (W S B P : Nat) (lowers ranges points cdf : List Nat) : Nat × UInt64 :=
+  let c := cfgOf W S B P
+  let data := [0x5a % 2^W]
+  lowers.foldl (fun acc lo =>
+    ranges.foldl (fun acc r =>
+      points.foldl (fun (acc : Nat × UInt64) pt =>
+        if r / 2^(S - W) = 0 ∨ r ≥ 2^S ∨ lo ≥ 2^S ∨ pt ≥ 2^S then (acc.1 + 1, digestStep acc.2 8) else
+        match Decoder.fromRawParts c data 0 lo r pt with
+        | none => (acc.1 + 1, digestStep acc.2 9)
+        | some d =>
+          let h := digestDec acc.2 (decode c (tableModel cdf) d)
+          let h := match d.maybeExhausted c with
+            | .ok b => digestStep h (if b then 1 else 0)
+            | .error _ => digestStep h 7
+          (acc.1 + 1, h)) acc) acc) (0, digestInit)
+
+def showDigest (r : Nat × UInt64) : String := toHex r.1 ++ " " ++ toHex r.2.toNat
+
+def handle (segs : List (List String)) : String :=
+  match segs with
+  | [kind, w, s] :: init :: ops =>
+    match parseHex w, parseHex s with
+    | some W, some S =>
+      if kind != "range" && kind != "rangedec" then "bad-op" else
+      match doInit W S kind init with
+      | some (some st) => " | ".intercalate (runOps W S st ops ["ok"])
+      | some none => "err"
+      | none => "bad-op"
+    | _, _ => "bad-op"
+  | [["rangesweep", w, s, b, p, los, rs, fs]] =>
+    match parseHex w, parseHex s, parseHex b, parseHex p, parseList los, parseList rs,
+          parseList fs with
+    | some W, some S, some B, some P, some los, some rs, some fs =>
+      showDigest (encSweep W S B P los rs fs)
+    | _, _, _, _, _, _, _ => "bad-op"
+  | [["rangedecsweep", w, s, b, p, los, rs, pts, cdf]] =>
+    match parseHex w, parseHex s, parseHex b, parseHex p, parseList los, parseList rs,
+          parseList pts, parseList cdf with
+    | some W, some S, some B, some P, some los, some rs, some pts, some cdf =>
+      showDigest (decSweep W S B P los rs pts cdf)
+    | _, _, _, _, _, _, _, _ => "bad-op"
+  | _ => "bad-op"
 
 end CV.Driver.Range
